@@ -30,6 +30,12 @@ HEADER = """From Coq Require Import List NArith Bool String.
 Import ListNotations.
 Require Import RV.Lib.PyStr RV.Model.XmlProlog RV.Model.XmlReject.
 Open Scope N_scope.
+(* one term of the grammar with one method, and the variants (declared charset, decode results, observed outcome) it was sent
+   with: the term is written -- and parsed by coqc -- once *)
+Definition corr_group (fd : bool)
+    (x : method * attack * rootkind * list (option pystr * list (pystr * N) * (bool * (N * N) * N * pystr))) : bool :=
+  let '(m, a, rk, vs) := x in
+  forallb (fun v => let '(ct, rs, e) := v in corr_eqb (corr_case fd (m, a, rk, ct, rs)) e) vs.
 """
 
 TIME_LIMIT_S = 2.0
@@ -442,6 +448,8 @@ def _run(ctx, base):
     ctx.log("history stream done")
     debug_check(ctx, base, decoy)
     ctx.log("configuration stream done")
+    scaling_check(ctx, base, decoy)
+    ctx.log("size-scaling stream done")
     found = found or [v for v in ctx.violations]
     # ---------------------------------------------------------------- 2. correspondence, evaluated in Coq
     fd = forbid_dtd_in_source()
@@ -449,7 +457,37 @@ def _run(ctx, base):
     good = [c for c in cases if c["mark"] in results]
     pairs = [(c, expected_tuple(c, results[c["mark"]])) for c in good]
     pairs += [(c, expected_tuple(c, hres[c["mark"]])) for c in hcases if c["a"] is not None and c["mark"] in hres]
-    bad = ctx.diff_cases("c19_corr", HEADER, "(corr_case %s)" % ("true" if fd else "false"), pairs, enc_in, enc_out, "corr_eqb", shard=80)
+    res_of = {id(c): results[c["mark"]] for c in good}
+    res_of.update({id(c): hres[c["mark"]] for c in hcases if c["mark"] in hres})
+    fdt = "true" if fd else "false"
+    groups, order = {}, []
+    for i, (c, exp) in enumerate(pairs):
+        k = (id(c["a"]), c["method"])
+        if k not in groups:
+            groups[k] = []
+            order.append(k)
+        groups[k].append(i)
+    ctx.extra["correspondence_groups"] = len(order)
+
+    def enc_group(idxs):
+        c0 = pairs[idxs[0]][0]
+        vs = []
+        for i in idxs:
+            c, exp = pairs[i]
+            rs = "[" + ";".join("(%s, %d)" % (X.e_str(n), code) for n, code, _ in c["dres"]) + "]"
+            ct = "(@None (list N))" if c["named"] is None else "(Some %s)" % X.e_str(c["named"])
+            vs.append("(%s, %s, %s)" % (ct, rs, enc_out(exp)))
+        return "(%s, %s, %s, [%s])" % (X.COQ_METHOD[c0["method"]], X.e_attack(c0["a"]), X.ROOTKIND[c0["a"]["rootkind"]], ";".join(vs))
+    gbad = ctx.diff_cases("c19_corr", HEADER, "(corr_group %s)" % fdt, [(groups[k], True) for k in order], enc_group,
+                          core.enc_bool, "Bool.eqb", shard=30)
+    bad = None
+    if gbad is not None:
+        bad = []
+        if gbad:
+            # locate the disagreeing variants of the disagreeing groups
+            sub = [i for g in gbad for i in groups[order[g]]]
+            b2 = ctx.diff_cases("c19_corr1", HEADER, "(corr_case %s)" % fdt, [pairs[i] for i in sub], enc_in, enc_out, "corr_eqb", shard=80)
+            bad = [sub[j] for j in (b2 or [])] or [sub[0]]
     if bad is not None:
         ok = not bad
         detail = ""
@@ -464,7 +502,7 @@ def _run(ctx, base):
             # the disagreeing case is the failing input (the monitors saw nothing wrong with it)
             c, exp = pairs[bad[0]]
             ctx.violation("C19 model / implementation disagree on %s %s (%s, %s): observed %r" % (
-                c["method"], c["path"], c["kind"], c["charset"], exp[3:]), replay_of(c, results[c["mark"]]))
+                c["method"], c["path"], c["kind"], c["charset"], exp[3:]), replay_of(c, res_of[id(c)]))
 
 
 # ---------------------------------------------------------------------------------------------- request histories
@@ -652,10 +690,130 @@ def debug_check(ctx, base, decoy):
                                                                    "debug-logging instance and prints allocation and log volume")))
 
 
+# ---------------------------------------------------------------------------------------------- size scaling
+CPU_SLACK_S, CPU_PER_BYTE_S = 0.25, 2.0e-7      # a refusal may cost a constant plus time linear in the size of the body
+PAD_POSITIONS = ["leading-blanks", "leading-bom", "after-decl", "comment", "pi", "subset-space", "entity-value", "literal-uri",
+                 "after-doctype", "root-text", "trailing"]
+
+
+def padded_attack(method, position, size, n):
+    """a small nested-expansion body with a run of `size` characters at one of the places where the grammar allows runs"""
+    a = X.lol_attack(method, 3, 4, n)
+    ws = (" \n\t\r" * (size // 4 + 1))[:size]
+    if position == "leading-blanks":
+        a["before"] = [("space", ws)]                       # no XML declaration: blanks in front of the DOCTYPE are legal
+    elif position == "leading-bom":
+        a["before"] = [("space", "\ufeff" * size)]          # not legal XML after the first one: refused as malformed or hostile
+    elif position == "after-decl":
+        a["before"] = a["before"] + [("space", ws)]
+    elif position == "comment":
+        a["before"] = a["before"] + [("comment", "c" * size)]
+    elif position == "pi":
+        a["before"] = a["before"] + [("pi", "t", "d" * size)]
+    elif position == "subset-space":
+        a["doctype"]["subset"] = [("space", ws)] + a["doctype"]["subset"]
+    elif position == "entity-value":
+        a["doctype"]["subset"] = [("entity", ("internal", "big", (False, [("r", "v", size)])))] + a["doctype"]["subset"]
+    elif position == "literal-uri":
+        a["doctype"]["ext"] = ("system", (False, [("r", "u", size)]))
+    elif position == "after-doctype":
+        a["after"] = [("space", ws)]
+    elif position == "root-text":
+        a["root"] = X.root_for(method, "", "", tail_pieces=[("r", "t", size)], tag_hint="z%d" % n)
+    elif position == "trailing":
+        a["root"] = a["root"] + [("s", ws)]
+    a["kind"] = "padded-" + position
+    return a
+
+
+def scaling_check(ctx, base, decoy):
+    """bounded rejection, as a function of the size: the same hostile body with a run of N characters at each place where the
+    grammar allows a run, N growing geometrically; CPU time of the request (process_time, robust against load) must stay
+    under a constant plus a linear term, and must not grow faster than linearly from one size to the next."""
+    sizes = [1 << 16, 1 << 18, 1 << 20] + ([] if ctx.quick else [1 << 22])
+    reqs, cases = setup_reqs(), []
+    n = 9000
+    for pi, pos in enumerate(PAD_POSITIONS):
+        for si, size in enumerate(sizes):
+            n += 1
+            m = X.METHODS[(pi + si) % 5]
+            a = padded_attack(m, pos, size, n)
+            text = X.render(a)
+            cs = "utf-16" if (pi + si) % 4 == 3 else "utf-8"
+            data = text.encode(cs)
+            idx = len(cases)
+            path = "/u/cal/" if m in ("PROPFIND", "PROPPATCH", "REPORT") else "/u/z%d/" % idx
+            mark = "c%d" % idx
+            ctype = "text/xml; charset=%s" % cs
+            reqs.append(dict(method=m, path=path, user="u", body=data, ctype=ctype, mark=mark))
+            cases.append(dict(idx=idx, mark=mark, method=m, path=path, kind=a["kind"], charset=cs, named=cs, a=a, text=text, data=data,
+                              ctype=ctype, dres=[], declares=True, size=size, pos=pos))
+    res, _, out = run_driver(ctx, base, reqs, timeout=1200, tag="-size", strace=False)
+    if res is None:
+        ctx.obligation("scaling:driver-ran", False, (out or "")[-1500:])
+        return
+    ctx.obligation("scaling:driver-ran", True)
+    saved = globals()["TIME_LIMIT_S"]
+    globals()["TIME_LIMIT_S"] = 1e9            # wall time is judged by the size-dependent CPU bound below
+    try:
+        found = evaluate(ctx, base, decoy, reqs, cases, res, {}, tag="-size", syscalls=False)
+    finally:
+        globals()["TIME_LIMIT_S"] = saved
+    seen = {c["mark"] for _, c, _ in found}
+    prev = {}
+    worst = 0.0
+    for c in cases:
+        r = res.get(c["mark"])
+        ctx.case(("size", c["pos"], c["size"], c["method"]), nontrivial=True)
+        ctx.count("padded:" + c["pos"])
+        if r is None:
+            continue
+        cpu, nb = r.get("cpu", 0.0), len(c["data"])
+        worst = max(worst, cpu / nb * 1e9)
+        what = []
+        bound = CPU_SLACK_S + CPU_PER_BYTE_S * nb
+        if cpu > bound:
+            what.append("refusing a body of %d bytes (%s of %d characters) took %.2f s of CPU (bound %.2f s = %.2f + %d ns/byte)" % (
+                nb, c["pos"], c["size"], cpu, bound, CPU_SLACK_S, CPU_PER_BYTE_S * 1e9))
+        p = prev.get(c["pos"])
+        if p is not None and p[1] > 0.05 and cpu / p[1] > 2.0 * (nb / p[0]):
+            what.append("CPU time grows faster than the size: %.3f s for %d bytes, %.3f s for %d bytes" % (p[1], p[0], cpu, nb))
+        prev[c["pos"]] = (nb, cpu)
+        if what and c["mark"] not in seen:
+            found.append(("; ".join(what), c, r))
+    found.sort(key=lambda x: (x[1]["size"], x[1]["idx"]))       # the smallest failing size makes the quickest replay
+    ctx.extra["scaling_requests"] = len(cases)
+    ctx.extra["scaling_worst_ns_per_byte"] = round(worst, 1)
+    ctx.extra["scaling_failures"] = len(found)
+    for what, c, r in found[:2]:
+        rp = replay_of(c, r, dict(padded=dict(position=c["pos"], size=c["size"], n=9000 + c["idx"] + 1),
+                                  note="./check C19 --replay <this file> rebuilds the padded body, sends it and prints the CPU time"))
+        rp.pop("body_b64", None)              # megabytes; rebuilt from (position, size)
+        ctx.violation("C19 size scaling %s %s (%s x %d, %s): %s" % (c["method"], c["path"], c["pos"], c["size"], c["charset"], what), rp)
+
+
 # ---------------------------------------------------------------------------------------------- replay
 def replay(ctx, path):
     data = json.load(open(path))
     rp = data.get("replay", data)
+    if rp.get("padded"):
+        base = tempfile.mkdtemp(prefix="rv-c19r-")
+        try:
+            pd = rp["padded"]
+            a = padded_attack(rp["method"], pd["position"], pd["size"], pd["n"])
+            body = X.render(a).encode(rp.get("charset") or "utf-8")
+            reqs = setup_reqs() + [dict(method=rp["method"], path=rp["path"], user="u", body=body, ctype=rp.get("ctype"), mark="c0")]
+            res, _, out = run_driver(ctx, base, reqs, 300, tag="-size", strace=False)
+            r = res["c0"]
+            bound = CPU_SLACK_S + CPU_PER_BYTE_S * len(body)
+            print("body of %d bytes (%s x %d): status %s, %.3f s CPU, %.3f s wall (bound %.2f s)%s" % (
+                len(body), pd["position"], pd["size"], r.get("status"), r.get("cpu", 0), r.get("dt", 0), bound,
+                " -- " + r["error"] if r.get("error") else ""))
+            bad = r.get("cpu", 0) > bound or r.get("status") not in (400, 500)
+            print("VERDICT: violated: the refusal is not bounded by a linear function of the size" if bad else "VERDICT: ok")
+            return 1 if bad else 0
+        finally:
+            shutil.rmtree(base, ignore_errors=True)
     if "body_b64" not in rp:
         print(json.dumps(data, indent=1)[:4000])
         return 0
